@@ -79,7 +79,8 @@ type Source struct {
 	Referrers []struct{ Digest, Subject string }
 	// features
 	Attest, HasBase, HasForeign, HasEmptyTar, HasNames, HasInnerTar bool
-	HasInlineCfg, HasInlineLayer, HasInlineChild, HistNoCreated    bool
+	HasInlineCfg, HasInlineLayer, HasInlineChild, HistNoCreated     bool
+	HasArgLayer                                                     bool // a layer-producing history entry whose text is "ARG VERSION=1.2.3"
 	HasStripFile, IndexAnnot                                        bool
 	UniformTime                                                     bool // every tar entry of every layer carries tUniform (a build with a fixed epoch)
 	Comps                                                           map[string]bool
@@ -378,6 +379,12 @@ func (b *builder) layer(family string, idx int, allowSpecial bool) layerBuilt {
 		fmt.Sprintf("COPY dir%d /app%d # buildkit", idx, idx),
 		fmt.Sprintf("/bin/sh -c #(nop) ADD file:%04x in / ", rng.Intn(65536)),
 	}[rng.Intn(3)]
+	if allowSpecial && len(blob)%9 == 0 {
+		// history text of a layer-producing step that reads like a build-argument declaration (what a builder
+		// writes is free text; decided by the blob length so that the draws of every other source stay as they were)
+		cb = "ARG VERSION=1.2.3"
+		s.HasArgLayer = true
+	}
 	h := []histEnt{{CreatedBy: cb, Created: histTimes[rng.Intn(len(histTimes))]}}
 	for rng.Intn(3) == 0 {
 		h = append(h, histEnt{CreatedBy: []string{"ENV A=B", "CMD [\"/app/bin\" \"serve\"]", "LABEL org.example.name=app", "ARG VERSION=1.2.3"}[rng.Intn(4)], Empty: true, Created: histTimes[rng.Intn(len(histTimes))]})
